@@ -8,8 +8,9 @@
     blocc/symbol.cpp/.h    upgrade (both overloads), check_safety, safety()/locked() getters and setters
     blocc/statement_for.cpp, statement_forall.cpp      parse_clause (flags saved, set, restored twice)
     blocc/statement_if.cpp, statement_while.cpp, statement_begin.cpp   execBegin … execEnd (+ catch)
-    blocc/statement_function.cpp, functor_manager.cpp  createOrReplace, rollback
-    blocc/parser.cpp       Parser::parse: parsingBegin … parsingEnd on both paths
+    blocc/statement_function.cpp, functor_manager.cpp  createOrReplace, rollback, parsingMark, parsingRevert (the journal)
+    blocc/parser.cpp       Parser::parse / parseStatement: parsingBegin + parsingMark … parsingEnd on both paths,
+                           parsingRevert in the catch block
 
   The expression parser never touches the context (it reads symbols and the function table only), so
   a text is abstracted as the sequence of context effects its parse performs up to the point where a
@@ -299,13 +300,33 @@ inductive Ev
   | fail
   deriving DecidableEq, Repr
 
+/-- `fmark`, `journal` = `FunctorManager::_mark`, `_journal` (newest entry first). They are fields of the manager in the
+code; `parsingMark` — the first thing every `Parser::parse` / `parseStatement` does after `parsingBegin` — overwrites both,
+so what an earlier parse left in them is never read: they are state of ONE parse. -/
 structure St where
   ctx : Ctx
   stack : List Frame
   child : Option Child
+  /-- `_mark`: the size of the function table when the parse began -/
+  fmark : Nat
+  /-- `_journal`: `(index, replaced functor)` for every entry replaced since the mark, newest first -/
+  journal : List (Nat × Fn)
   deriving DecidableEq, Repr
 
-def St.init (c : Ctx) : St := ⟨parsingBegin c, [], none⟩
+/-- `parsingBegin` + `FunctorManager::parsingMark` -/
+def St.init (c : Ctx) : St := ⟨parsingBegin c, [], none, c.fns.length, []⟩
+
+/-- what `createOrReplace` appends to the journal: `_journal.emplace_back(index, _backed)` when an entry is replaced,
+nothing when a new entry is appended -/
+def journalEntry (fns : List Fn) (name : String) (arity : Nat) : List (Nat × Fn) :=
+  match findFn name arity fns with
+  | some i => (match fns[i]? with | some f => [(i, f)] | none => [])
+  | none => []
+
+/-- `FunctorManager::parsingRevert`: the declarations behind the mark are removed (`pop_back` down to `_mark`), then the
+journal is undone from the newest entry to the oldest (entries at or behind the mark were removed already) -/
+def revertFns (mark : Nat) (journal : List (Nat × Fn)) (fns : List Fn) : List Fn :=
+  journal.foldl (fun acc p => if p.1 < mark then modAt (fun _ => p.2) p.1 acc else acc) (fns.take mark)
 
 /-- One event. `.error` = a ParseError is thrown by this event; nothing was modified (every event checks
 before it writes), so the state at the throw is the argument. -/
@@ -348,7 +369,8 @@ def step (H : Decl → Nat) (st : St) (e : Ev) : Except PErr St :=
     | .fnBegin n a fid =>
       if st.ctx.exec > 0 then .error .nestedFunction else
       let (fns, bk) := createOrReplace st.ctx.fns n a fid
-      .ok { st with ctx := { st.ctx with fns := fns, fbacked := bk }, child := some ⟨1, n, a⟩ }
+      .ok { st with ctx := { st.ctx with fns := fns, fbacked := bk }, child := some ⟨1, n, a⟩,
+                    journal := journalEntry st.ctx.fns n a ++ st.journal }
     | .fail => .error .other
 
 /-- run events until one throws: `(threw, state at that point)` -/
@@ -373,6 +395,12 @@ def rollbackCtx (c : Ctx) : Ctx :=
 def unwind (st : St) : Ctx :=
   unwindFrames st.stack (match st.child with | some _ => rollbackCtx st.ctx | none => st.ctx)
 
+/-- the catch block of `Parser::parse` / `parseStatement`, reached after the inner catch blocks (`unwind`):
+`functorManager().parsingRevert()`, then `parsingEnd()` -/
+def rejectCtx (H : Decl → Nat) (st : St) : Ctx :=
+  let c := unwind st
+  parsingEnd H { c with fns := revertFns st.fmark st.journal c.fns }
+
 inductive Outcome
   | accept (c : Ctx)
   | reject (c : Ctx)
@@ -382,7 +410,7 @@ inductive Outcome
 or function body is a ParseError as well. -/
 def parseText (H : Decl → Nat) (c : Ctx) (evs : List Ev) : Outcome :=
   let (threw, st) := runEvents H (St.init c) evs
-  if threw || !st.stack.isEmpty || st.child.isSome then .reject (parsingEnd H (unwind st))
+  if threw || !st.stack.isEmpty || st.child.isSome then .reject (rejectCtx H st)
   else .accept (parsingEnd H st.ctx)
 
 def Outcome.rejected : Outcome → Option Ctx
@@ -552,7 +580,7 @@ def nrun (H : Decl → Nat) : St → List NEv → Bool × St
 /-- `Parser::parse` on a text given by its statement heads -/
 def parseTextN (H : Decl → Nat) (c : Ctx) (evs : List NEv) : Outcome :=
   let (threw, st) := nrun H (St.init c) evs
-  if threw || !st.stack.isEmpty || st.child.isSome then .reject (parsingEnd H (unwind st))
+  if threw || !st.stack.isEmpty || st.child.isSome then .reject (rejectCtx H st)
   else .accept (parsingEnd H st.ctx)
 
 /-- the id events a statement head performs in state `st` (what the parser's `findSymbol` resolves the names to) -/
@@ -669,7 +697,8 @@ def lift (x : Extra) (g : Option Fn) (c : Ctx) : Ctx :=
     fns := ins x.m0 x.fns c.fns, fbacked := g }
 
 def liftSt (x : Extra) (g : Option Fn) (st : St) : St :=
-  ⟨lift x g st.ctx, st.stack.map (Frame.ren x.ρ), st.child⟩
+  ⟨lift x g st.ctx, st.stack.map (Frame.ren x.ρ), st.child, st.fmark + x.fns.length,
+   st.journal.map fun p => (ren x.m0 x.fns.length p.1, p.2)⟩
 
 /-- the event does not mention a left-over name / function -/
 def Ev.avoids (x : Extra) : Ev → Bool
